@@ -121,7 +121,9 @@ def _gen_safe_markup(rng):
 
 def gen_uri_markup(rng):
     t, a = rng.choice([p for p in RELURIS if p[0] in REF_ELEMS and p[1] in REF_ATTRS])
-    ref = rng.choice(["rel/x", "../up", "/abs", "?q=1", "#frag", "http://other.example/p", "x y", "a&amp;b=1", "mailto:a@b.example"])
+    ref = rng.choice(["rel/x", "../up", "/abs", "?q=1", "#frag", "http://other.example/p", "x y", "a&amp;b=1", "mailto:a@b.example",
+                      # scheme-less references with a colon further on (footnote anchors, wiki paths, ports, times)
+                      "#fn:1", "/wiki/Talk:Main", "//host.example:8080/x", "a.html?t=10:30", "./a:b", "?k=v:w#x:y"])
     if rng.random() < 0.4:
         # query strings whose authored value contains reference-like text / references
         ref = rng.choice(["rel/x", "http://other.example/p", "/abs", ""]) + "?q=" + "".join(gen_ref(rng) if rng.random() < 0.6 else rng.choice(["AT", "x", "1", "=", "b"]) for _ in range(rng.randint(1, 3)))
